@@ -19,7 +19,9 @@ def tdm_script(draw, tier, control=False):
     items = []
     pnames = draw(st.lists(st.sampled_from(["p0", "p1", "p2", "p7", "p12", "p007", "p3"]), min_size=0, max_size=4, unique=True))
     for pn in pnames:
-        d = draw(S.array_decl(ctx, name=pn, max_rows=draw(st.sampled_from([1, 1, 1, 3])), max_cols=5))
+        # (sometimes with bare {x} elements: the array is still a p-array and is still passed by name)
+        d = draw(S.array_decl(ctx, name=pn, max_rows=draw(st.sampled_from([1, 1, 1, 3])), max_cols=5,
+                              symbolic="params" if (params and draw(st.integers(0, 3)) == 0) else None))
         ctx.frozen.add(pn)
         items.append(d)
         if draw(st.integers(0, 2)) == 0:
@@ -71,7 +73,8 @@ RULE = ("Hypothesis constructs tdm scripts (type tdm with options) with 0..4 int
         "parameters contains no p-name and is_template() iff a {} parameter is written; q = loads(dumps(p)) preserves the p-arrays "
         "exactly, the references to them and all operations. In the control group p-arrays are passed by value. Non-trivial = >=2 "
         "p-arrays and an ordinary variable or template parameter. Distinct = SHA-1 of the script text.")
-ASSUMPTIONS = ["reference interpreter", "template parameters of tdm scripts occur in operation arguments only (not in variables)"]
+ASSUMPTIONS = ["reference interpreter", "the dumps/loads half is checked for tdm scripts whose variables are parameter-free "
+               "(p-arrays with {x} elements are checked on the load side: by name, data, parameters)"]
 BUDGET = {"quick": (1200, 4), "thorough": (26000, 16)}
 
 
@@ -121,6 +124,9 @@ def check(c):
         out.violations.extend(K.mismatch_violations("tdm-load", mm, text))
         return out
     if c["control"]:
+        return out
+    if any(canon.contains_sympy(v) for v in p.variables.values()):
+        out.classes.append("p-array-with-template-parameter (load side only)")
         return out
     t, e = K.safe_dumps(p)
     if e is not None:
